@@ -930,6 +930,7 @@ pub fn run_c16(a: &Args, rep: &mut Report) {
     };
     let my_long: Vec<usize> = long_lens.iter().enumerate().filter(|(i, _)| *i as u64 % a.nshards == a.shard % a.nshards).map(|(_, l)| *l).collect();
     let all_ops = all_supported_opcodes();
+    let mut par_progs: Vec<Vec<u8>> = Vec::new();
     for k in 0..n + my_long.len() as u64 {
         let canonical = k % 2 == 0 || k >= n;
         let p = if k >= n {
@@ -958,6 +959,9 @@ pub fn run_c16(a: &Args, rep: &mut Report) {
         };
         let bytes = encode_prog(&p);
         rep.case(Some(fnv(&bytes)));
+        if par_progs.len() < 6000 && k % 9 == 0 && bytes.len() <= 8 * 64 {
+            par_progs.push(bytes.clone());
+        }
         let r = sys::catch(|| {
             let entries = disasm(&bytes);
             let text = entries.iter().map(|e| e.desc.clone()).collect::<Vec<_>>().join("\n");
@@ -1029,6 +1033,19 @@ pub fn run_c16(a: &Args, rep: &mut Report) {
                 }
             }
         }
+    }
+    // the same round trips on 8 threads at once, each with its own program: same text, same bytes
+    if !cfg!(miri) {
+        let f = |b: &Vec<u8>| {
+            sys::catch(|| {
+                let text = disasm(b).iter().map(|e| e.desc.clone()).collect::<Vec<_>>().join("\n");
+                let out = assemble(&text);
+                (text, out)
+            })
+            .map_err(|p| sys::panic_site(&p))
+        };
+        let (execs, bad) = crate::mon_par::par_same(&par_progs, f, if a.tier == "quick" { 2 } else { 6 });
+        crate::mon_par::report_par(rep, "C16", "disassemble-assemble", execs, bad, |i| json!({"prog": hex(&par_progs[i])}));
     }
 }
 
